@@ -143,18 +143,12 @@ PROPS = {
     },
 }
 
-PROPS['C13'] = {
-    'explanation': 'Clause decided: adjacency. The identifier of a new element is requested (Identifier::between) between the two elements '
-                   'adjacent to the requested position - the (i-1)-th and the i-th of the walk over all keys, i clamped to the length '
-                   '(List::insert_index), the element before / after the given anchor (GList::insert_after / insert_before), '
-                   'idx-1 / idx (GList::insert) - and delete_index(i) names the i-th identifier. Positions are read off the iterator '
-                   'algebra (next / skip / nth / successor on one iterator, checked_sub / + / - on the index), not off the text.',
-    'decides': 'IDX-ADJ (5 functions), plus the read accessors the statement is observed through (ACC-PLAIN, LIST-READ)',
-    'not_decided': 'that the identifier obtained is strictly between the two bounds (C14: decision table and necessary clauses of '
-                   'between, density itself not decided), hence the behavioural "locally like a Vec" statement',
-}
-
 NOT_APPLICABLE = {
+    'C13': 'index arithmetic over runtime lengths. The one structural clause (the new identifier is requested between the two '
+           'elements adjacent to the index) was built and measured in the build phase (experiments/c13): it catches 20/20 index '
+           'mutants, but the equivalent spellings of "the (i-1)-th and i-th element" are open-ended - 12 of 12 fresh behaviour-'
+           'preserving rewrites (take(i).last(), fold, counted while loops, peekable, match (ix, len)) raised an alarm after the '
+           'recogniser had been generalised to pass the previous 12 - so the clause is a brittle proxy and is not claimed',
     'C01': 'convergence is order-insensitivity of compositions of apply over all causal schedules; no guard, flow or effect '
            'ordering of a single function is necessary for it, and commutation of MIR bodies is not statically decidable here '
            '(mechanisms it names are decided under C06, C08, C09, C15)',
